@@ -44,6 +44,27 @@ pub fn fixture(n: usize) -> MithrilFixture {
         .build()
 }
 
+/// Three parties that are NOT certified by an operational certificate (the mode test networks
+/// use) and whose party ids are textually nested: "1" is a prefix / substring of "10" and "11".
+/// Same stakes as the certified fixture. Any comparison of party ids that is not an exact match
+/// (substring, prefix, numeric parse, truncated column) confuses them.
+pub fn fixture_nested_ids() -> MithrilFixture {
+    use mithril_common::test::builder::StakeDistributionGenerationMethod;
+    let stakes: Vec<u64> = fixture(3).signers_with_stake().iter().map(|s| s.stake).collect();
+    let ids = ["1", "10", "11"];
+    let dist: BTreeMap<String, u64> = ids.iter().zip(stakes).map(|(i, s)| (i.to_string(), s)).collect();
+    MithrilFixtureBuilder::default()
+        .with_protocol_parameters(protocol_parameters())
+        .disable_signers_certification()
+        .with_stake_distribution(StakeDistributionGenerationMethod::Custom(dist))
+        .build()
+}
+
+thread_local! {
+    /// set for the duration of a replay that wants the nested-id parties (see `World::new_nested_ids`)
+    static NESTED_IDS: Cell<bool> = const { Cell::new(false) };
+}
+
 /// Test doubles that survive a restart (they stand for the Cardano node and the outside world).
 #[derive(Clone)]
 pub struct Outside {
@@ -202,6 +223,14 @@ impl World {
         World::new_kind(dir, nsigners, if msd_only { Kind::MsdOnly } else { Kind::MsdCdb }).await
     }
 
+    /// as `new`, with three uncertified parties whose ids are textually nested ("1", "10", "11")
+    pub async fn new_nested_ids(dir: PathBuf) -> World {
+        NESTED_IDS.with(|c| c.set(true));
+        let w = World::new_kind(dir, 3, Kind::MsdCdb).await;
+        NESTED_IDS.with(|c| c.set(false));
+        w
+    }
+
     pub async fn new_kind(dir: PathBuf, nsigners: usize, kind: Kind) -> World {
         let _ = std::fs::remove_dir_all(&dir);
         std::fs::create_dir_all(&dir).unwrap();
@@ -222,7 +251,7 @@ impl World {
             block_scanner: Arc::new(DumbBlockScanner::new()),
         };
         let Node { deps, runtime, routes, open_messages, ticker, metrics } = build_node(&config, &outside).await;
-        let fixture = fixture(nsigners);
+        let fixture = if NESTED_IDS.with(|c| c.get()) { fixture_nested_ids() } else { fixture(nsigners) };
         outside.chain_observer.set_signers(fixture.signers_with_stake()).await;
         let epoch = Epoch(1);
         deps.init_state_from_fixture_for_genesis(&fixture, epoch).await;
